@@ -1,260 +1,50 @@
-// C12 — timing wheel: explicit-state search over Set/Move/Remove/Tick/Drain histories of the
-// REAL TimingWheel (NewTimingWheelWithTicker with a harness ticker), driven in vsched's
-// sequential-driver mode: the driver performs one operation, then Quiesce() runs the wheel's
-// own goroutines (run loop, task runners) until nothing can move, which makes "tick k fired
-// these timers" a deterministic observation without sleeping.
+// C12 — timing wheel. Two engines in one binary:
 //
-// State = shortest op list; successor = fresh wheel, replay, one more op. State key = white-box
-// dump of the wheel (tickedPos, every slot's entries with circle/diff/removed, the timers map)
-// ⊕ reference model; the dump is the wheel's entire state, so equal keys have equal futures.
-// Reference: key → (latest value, ticks remaining).
+//  1. histories (hist.go): explicit-state BFS (vlib.PBFS) per wheel size over SetTimer/MoveTimer/
+//     RemoveTimer/tick/Drain histories of the real wheel in sequential-driver mode, with panicking
+//     callbacks as part of the history;
+//  2. schedules (sched.go, xscen.go): vx exploration of small closed scenarios — run loop,
+//     delivery goroutines (callbacks with scheduling points, parked on gates, panicking), caller
+//     threads and a ticker thread, every interleaving up to the preemption bound.
 package main
 
 import (
+	"encoding/json"
 	"fmt"
-	"sort"
+	"os"
+	"strconv"
 	"strings"
 	"time"
 
-	"github.com/zeromicro/go-zero/core/collection"
+	"github.com/zeromicro/go-zero/core/logx"
 	"github.com/zeromicro/go-zero/verifshim/vlib"
-	"github.com/zeromicro/go-zero/verifshim/vsched"
+	"github.com/zeromicro/go-zero/verifshim/vx"
 )
 
-const interval = time.Second
-
-type Op struct {
-	K     string `json:"k"` // set | move | remove | tick | drain
-	Key   string `json:"key,omitempty"`
-	Steps int    `json:"steps,omitempty"` // delay = Steps*interval (+ Half)
-	Half  bool   `json:"half,omitempty"`  // + interval/2 (non-multiple delay)
-}
-
-func (o Op) String() string {
-	h := ""
-	if o.Half {
-		h = ".5"
-	}
-	switch o.K {
-	case "set", "move":
-		return fmt.Sprintf("%s(%s,%d%s)", o.K, o.Key, o.Steps, h)
-	case "remove":
-		return "remove(" + o.Key + ")"
-	}
-	return o.K
-}
-
-type ticker struct{ c chan time.Time }
-
-func (t *ticker) Chan() <-chan time.Time { return t.c }
-func (t *ticker) Stop()                  {}
-
-type refEntry struct {
-	val    string
-	remain int
-	tag    string // set | reset | moved
-}
-
-type result struct {
-	key   string
-	err   string
-	class string
-	stop  bool
-}
-
-type Case struct {
-	Slots int  `json:"slots"`
-	Path  []Op `json:"path"`
-}
-
-// run executes the history on a fresh wheel and checks every step against the reference.
-func run(slots int, path []Op, verbose bool) result {
-	var res result
-	body := func() {
-		var fired []string
-		tk := &ticker{c: vsched.MakeChan[time.Time](1)}
-		vsched.DaemonChildren(true) // the wheel's run loop never exits; only the driver keeps the execution alive
-		tw, err := collection.NewTimingWheelWithTicker(interval, slots, func(k, v any) {
-			fired = append(fired, fmt.Sprintf("%v=%v", k, v))
-		}, tk)
-		if err != nil {
-			res.err, res.class = "constructor: "+err.Error(), "constructor"
-			return
-		}
-		ref := map[string]*refEntry{}
-		nval := map[string]int{}
-		vsched.Quiesce()
-		for i, op := range path {
-			fired = fired[:0]
-			var want []string
-			d := time.Duration(op.Steps) * interval
-			if op.Half {
-				d += interval / 2
-			}
-			switch op.K {
-			case "set":
-				nval[op.Key]++
-				v := fmt.Sprintf("v%d", nval[op.Key]%2)
-				if err := tw.SetTimer(op.Key, v, d); err != nil {
-					res.err, res.class = "SetTimer: "+err.Error(), "api-error"
-					return
-				}
-				tag := "set"
-				if ref[op.Key] != nil {
-					tag = "reset"
-				}
-				ref[op.Key] = &refEntry{val: v, remain: op.Steps, tag: tag}
-			case "move":
-				if err := tw.MoveTimer(op.Key, d); err != nil {
-					res.err, res.class = "MoveTimer: "+err.Error(), "api-error"
-					return
-				}
-				if r := ref[op.Key]; r != nil {
-					r.remain = op.Steps
-					r.tag = "moved"
-				}
-			case "remove":
-				if err := tw.RemoveTimer(op.Key); err != nil {
-					res.err, res.class = "RemoveTimer: "+err.Error(), "api-error"
-					return
-				}
-				delete(ref, op.Key)
-			case "tick":
-				vsched.Send(tk.c, vsched.TimeNow())
-				for k, r := range ref {
-					r.remain--
-					if r.remain == 0 {
-						want = append(want, k+"="+r.val)
-					}
-				}
-			case "drain":
-				var got []string
-				if err := tw.Drain(func(k, v any) { got = append(got, fmt.Sprintf("%v=%v", k, v)) }); err != nil {
-					res.err, res.class = "Drain: "+err.Error(), "api-error"
-					return
-				}
-				vsched.Quiesce()
-				for k, r := range ref {
-					want = append(want, k+"="+r.val)
-				}
-				sort.Strings(got)
-				sort.Strings(want)
-				if strings.Join(got, ",") != strings.Join(want, ",") {
-					res.err = fmt.Sprintf("step %d %v: Drain delivered [%s], pending were [%s]", i, op, strings.Join(got, ","), strings.Join(want, ","))
-					res.class = "drain-mismatch"
-					return
-				}
-				if len(fired) > 0 {
-					res.err = fmt.Sprintf("step %d drain: execute callback fired %v", i, fired)
-					res.class = "unexpected-fire:drain"
-					return
-				}
-				res.stop = true
-				res.key = "drained"
-				return
-			}
-			vsched.Quiesce()
-			got := append([]string(nil), fired...)
-			sort.Strings(got)
-			sort.Strings(want)
-			if verbose {
-				fmt.Printf("  step %d %-14v fired=[%s] expected=[%s]\n      wheel: %s\n", i, op, strings.Join(got, ","), strings.Join(want, ","), collection.VerifDumpTimingWheel(tw))
-			}
-			if strings.Join(got, ",") != strings.Join(want, ",") {
-				res.err = fmt.Sprintf("step %d %v: fired [%s], due were [%s] (history %v)", i, op, strings.Join(got, ","), strings.Join(want, ","), path[:i+1])
-				res.class = classify(got, want, ref)
-				return
-			}
-			for k, r := range ref {
-				if r.remain == 0 {
-					delete(ref, k)
-				}
-			}
-		}
-		var rs []string
-		for k, r := range ref {
-			rs = append(rs, fmt.Sprintf("%s=%s/%d", k, r.val, r.remain))
-		}
-		sort.Strings(rs)
-		res.key = collection.VerifDumpTimingWheel(tw) + "#" + strings.Join(rs, ",")
-	}
-	e := vsched.RunSeq(body)
-	if e.Outcome != "ok" && res.err == "" {
-		res.err = fmt.Sprintf("execution ended with %s: blocked %v panics %v", e.Outcome, e.Blocked(), e.Panics())
-		res.class = "wheel-" + e.Outcome
-	}
-	return res
-}
-
-func classify(got, want []string, ref map[string]*refEntry) string {
-	in := func(xs []string, x string) bool {
-		for _, y := range xs {
-			if y == x {
-				return true
-			}
-		}
-		return false
-	}
-	tagOf := func(kv string) string {
-		k := strings.SplitN(kv, "=", 2)[0]
-		if r := ref[k]; r != nil {
-			return r.tag
-		}
-		return "absent"
-	}
-	for _, w := range want {
-		if !in(got, w) {
-			// wrong value?
-			for _, g := range got {
-				if strings.SplitN(g, "=", 2)[0] == strings.SplitN(w, "=", 2)[0] {
-					return "stale-value:" + tagOf(w)
-				}
-			}
-			return "missing-fire:" + tagOf(w)
-		}
-	}
-	for _, g := range got {
-		if !in(want, g) {
-			return "unexpected-fire:" + tagOf(g)
-		}
-	}
-	return "duplicate-fire"
-}
-
-func alphabet(slots int, thorough bool) []Op {
-	stepSet := map[int]bool{1: true, 2: true, slots: true, slots + 1: true, 2 * slots: true, 2*slots + 1: true}
-	if thorough {
-		stepSet[slots-1] = true
-		stepSet[3*slots] = true
-	}
-	var steps []int
-	for s := range stepSet {
-		if s >= 1 {
-			steps = append(steps, s)
-		}
-	}
-	sort.Ints(steps)
-	ops := []Op{{K: "tick"}}
-	for _, k := range []string{"a", "b"} {
-		for _, s := range steps {
-			ops = append(ops, Op{K: "set", Key: k, Steps: s})
-		}
-	}
-	for _, k := range []string{"a", "b"} {
-		for _, s := range steps {
-			ops = append(ops, Op{K: "move", Key: k, Steps: s})
-		}
-		ops = append(ops, Op{K: "remove", Key: k})
-	}
-	ops = append(ops, Op{K: "set", Key: "a", Steps: 1, Half: true}, Op{K: "move", Key: "a", Steps: 2, Half: true})
-	ops = append(ops, Op{K: "drain"})
-	return ops
-}
+const rule = "histories: explicit-state BFS per wheel size over SetTimer/MoveTimer/RemoveTimer/tick/Drain on the real TimingWheel (2 keys, delays of 1..2n+1 intervals incl. non-multiples; the callbacks panic for every other value of a key); a state is distinct by its white-box wheel dump + reference pending set; every transition re-executes the real code from a fresh wheel. Schedules: every interleaving up to the preemption bound of the wheel's run loop, its delivery and drain goroutines (callbacks with a scheduling point / parked on a gate until a later tick / panicking), 0-2 caller threads and a ticker thread; distinct = distinct (explaining operation order, delivery/return event sequence) per scenario"
 
 func main() {
 	cfg := vlib.ParseFlags("C12", "model_checking")
 	r := vlib.NewReport(cfg)
+	logx.Disable() // recovered callback panics are logged by rescue.Recover
+	quick, thorough := vx.Bounds{P: 1, T: 0}, vx.Bounds{P: 2, T: 0}
+	if p, err := strconv.Atoi(os.Getenv("C12_P")); err == nil { // development aid
+		quick.P, thorough.P = p, p
+	}
 	if cfg.Replay != "" {
+		b, err := os.ReadFile(cfg.Replay)
+		if err != nil {
+			vlib.Fatal("cannot read replay: %v", err)
+		}
+		var probe struct {
+			Replay struct {
+				Scenario string `json:"scenario"`
+			} `json:"replay"`
+		}
+		json.Unmarshal(b, &probe)
+		if probe.Replay.Scenario != "" {
+			vx.Main(cfg, r, replayScenarios(), quick, thorough, rule) // replays the schedule and exits
+		}
 		var c Case
 		class, err := vlib.LoadReplay(cfg.Replay, &c)
 		if err != nil {
@@ -271,16 +61,67 @@ func main() {
 		r.Eval(1)
 		r.Finish()
 	}
+	part := os.Getenv("C12_PART")           // development aid: "hist" or "sched" runs one engine only
+	if cfg.Shard == "" && part != "sched" { // not a vx shard worker: run (or serve) the history search first
+		histories(cfg, r)
+		if cfg.BFSWorker != "" {
+			os.Exit(0)
+		}
+	}
+	r.Assume("schedules: code outside the rewritten packages (core/collection, core/threading, core/timex, core/syncx) runs atomically between two scheduling points; interleavings are enumerated up to the preemption bound stated per scenario")
+	scs := scenarios(cfg.Thorough())
+	if part == "hist" {
+		scs = scs[:1]
+	}
+	if f := os.Getenv("C12_SCEN"); f != "" { // development aid: only the scenarios whose name contains f
+		var keep []vx.Scenario
+		for _, sc := range scs {
+			if strings.Contains(sc.Name, f) {
+				keep = append(keep, sc)
+			}
+		}
+		scs = keep
+	}
+	vx.Main(cfg, r, scs, quick, thorough, rule)
+}
+
+// replayScenarios: the scenarios of both tiers (a replay names its scenario)
+func replayScenarios() []vx.Scenario {
+	scs := scenarios(true)
+	have := map[string]bool{}
+	for _, sc := range scs {
+		have[sc.Name] = true
+	}
+	for _, sc := range scenarios(false) {
+		if !have[sc.Name] {
+			scs = append(scs, sc)
+		}
+	}
+	return scs
+}
+
+func histories(cfg *vlib.Config, r *vlib.Report) {
 	sizes := []int{1, 2, 3, 4}
 	depth := 6
 	if cfg.Thorough() {
 		sizes = []int{1, 2, 3, 4, 5, 10}
 		depth = 9
 	}
-	r.SetRule("explicit-state BFS per wheel size over histories of SetTimer/MoveTimer/RemoveTimer/tick/Drain on the real TimingWheel (2 keys, delays of 1..2n+1 intervals incl. non-multiples); a state is distinct by its white-box wheel dump + reference pending set; every transition re-executes the real code from a fresh wheel")
-	r.Assume("wheel goroutines are run to quiescence under the default schedule after each operation (sequential-driver mode); interleavings inside the wheel are not explored here")
-	for _, slots := range sizes {
+	r.Assume("histories: wheel goroutines are run to quiescence under the default schedule after each operation (sequential-driver mode); the interleavings of the wheel's goroutines are explored by the schedule scenarios")
+	// time box (leaves time for the schedules). quick: the histories close long before it. thorough:
+	// they get 70 % of the run's budget, shared out over the wheel sizes — each size may use an equal
+	// share of what is left (a size that closes early passes its time on), so that every size is cut
+	// at some depth instead of everything being spent on the first large one
+	histEnd := cfg.Start.Add(cfg.Deadline().Sub(cfg.Start) * 8 / 10)
+	if cfg.Thorough() {
+		histEnd = cfg.Start.Add(cfg.Deadline().Sub(cfg.Start) * 7 / 10)
+	}
+	for si, slots := range sizes {
 		slots := slots
+		sliceEnd := histEnd
+		if cfg.Thorough() {
+			sliceEnd = time.Now().Add(time.Until(histEnd) / time.Duration(len(sizes)-si))
+		}
 		name := fmt.Sprintf("slots=%d", slots)
 		alpha := alphabet(slots, cfg.Thorough())
 		d := depth
@@ -291,7 +132,7 @@ func main() {
 			Name:     name,
 			Cfg:      cfg,
 			MaxDepth: d,
-			Deadline: cfg.Deadline(),
+			Deadline: sliceEnd,
 			Alphabet: func(d int, path []Op) []Op { return alpha },
 			Run: func(path []Op) vlib.RunResult {
 				res := run(slots, path, false)
@@ -317,5 +158,4 @@ func main() {
 			r.NotExhaustive(name + ": " + out.Cap)
 		}
 	}
-	r.Finish()
 }
